@@ -503,7 +503,7 @@ def random_body(case):
 
 def plan(tier):
     cs = combos(tier)
-    bound, limit = (2, 500) if tier == "quick" else (3, 30000)
+    bound, limit = (2, 500) if tier == "quick" else (3, 9000)
     shards = []
     nsh = 14
     for i in range(nsh):
